@@ -20,7 +20,7 @@ import hashlib
 from fractions import Fraction
 
 from ..affine import Lin
-from ..facts import abs_range, atoms, call_is, equality_atoms, meth_is, strip
+from ..facts import abs_range, atoms, call_is, cut_normalise, equality_atoms, meth_is, strip
 from ..intervals import iv_of
 from ..model import AnalysisError
 from ..seq import Byte, Const, Digest, Field, Layouts, Opaque, Zeros, explode, pad16, show_layout, total
@@ -190,6 +190,7 @@ def run(ctx):
         if node2 is None:
             continue
         facts = atoms(pc2)
+        ret = cut_normalise(ret, ("param", dp), facts)
         # ciphertext range
         calls = [x for x in subterms(ret) if call_is(x, f"{SEC}.decrypt_aes")]
         ok = len(calls) == 1 and strip(ret) == calls[0]
